@@ -122,25 +122,32 @@ def gen_case(rng, i):
     args = [gen_arg(rng, 2) for _ in range(n)]
     keys = rng.shuffle(["k1", "k2", "zz", "a", "opt"])[:hn]
     hargs = [(k, gen_arg(rng, 1)) for k in keys]
-    form = rng.pick(["expr", "expr", "block", "sub"])
+    form = rng.pick(["expr", "expr", "block", "sub", "chain"])
     if form == "expr" and n == 0 and hn == 0:
         form = "block"
     inner = "pr " + " ".join(a for a, _ in args) + "".join(" %s=%s" % (k, a) for k, (a, _) in hargs)
     inner = inner.rstrip()
     bp = []
+    # whitespace control on either side of the tag, with or without a space in front of the closing tilde
+    pre = rng.pick(["", "", "~"])
+    post = rng.pick(["", "", "~", " ~", " "])
     if form == "expr":
-        tpl = "{{{" + inner + "}}}"
-    elif form == "block":
+        tpl = "{{{" + pre + inner + post + "}}}"
+    elif form in ("block", "chain"):
         bpn = rng.pick([0, 1, 2])
         bp = ["x1", "y2"][:bpn]
         els = rng.chance(0.5)
-        tpl = "{{#" + inner + (" as |" + " ".join(bp) + "|" if bp else "") + "}}B" + ("{{else}}E" if els else "") + "{{/pr}}"
+        tag = inner + (" as |" + " ".join(bp) + "|" if bp else "") + post + "}}B" + ("{{else}}E" if els else "")
+        if form == "block":
+            tpl = "{{" + pre + "#" + tag + "{{/pr}}"
+        else:
+            tpl = "{{#if f}}X{{" + pre + "else " + tag + "{{/if}}"
     else:
         tpl = "{{{id (" + inner + ")}}}" if (n + hn) > 0 else "{{{id (pr 1)}}}"
         if (n + hn) == 0:
             args = [("1", {"v": 1, "r": None, "m": False})]
-    exp = {"n": "pr", "p": [e for _, e in args], "h": {k: e for k, (_, e) in hargs}, "b": form == "block",
-           "t": form == "block", "i": form == "block" and "{{else}}" in tpl, "bp": bp}
+    exp = {"n": "pr", "p": [e for _, e in args], "h": {k: e for k, (_, e) in hargs}, "b": form in ("block", "chain"),
+           "t": form in ("block", "chain"), "i": form in ("block", "chain") and "{{else}}" in tpl, "bp": bp}
     cfg = {"escape": "none", "helpers": [{"name": "pr", "kind": "probe"}, {"name": "id", "kind": "vret"}]}
     case = session(cfg, [], {"api": "render_template", "src": tpl}, DATA)
     return case, {"expect": exp, "form": form, "tpl": tpl}
